@@ -807,6 +807,7 @@ func ruleGuardProfile(c *Ctx, r *Rep) {
 		return true
 	}
 	n := 0
+	validating := map[*ssa.Function]bool{}
 	for fn, cis := range c.funcsCalling(c.modPkg("generator/config") + ".Validate") {
 		fk := c.FuncKey(fn)
 		// the edges taken when a validation passed
@@ -838,6 +839,7 @@ func ruleGuardProfile(c *Ctx, r *Rep) {
 			continue
 		}
 		k := 0
+		validating[fn] = true
 		for _, ret := range returnsOf(fn) {
 			res := retResults(ret)
 			if len(res) == 0 || !isErrorType(res[len(res)-1].Type()) {
@@ -861,6 +863,9 @@ func ruleGuardProfile(c *Ctx, r *Rep) {
 				}
 			}
 			r.Check(ok, sprintf("success-exit|%s#%d", fk, k), c.Pos(ret.Pos()), "a successful exit lies behind a passed validation, or behind a test that the Profile field is empty", how)
+			if how != "behind a passed validation" {
+				validating[fn] = false
+			}
 			// and where a profile is named, what is handed back is what the merge made of the two (the profile's
 			// validity and extensions reach the certificate through nothing else)
 			if how == "behind a passed validation" && len(res) == 2 {
@@ -873,6 +878,75 @@ func ruleGuardProfile(c *Ctx, r *Rep) {
 				}
 				r.Check(merged, sprintf("merged-result|%s#%d", fk, k), c.Pos(ret.Pos()), "with a profile named, the configuration handed back is the result of config.Merge", strings.Join(head(o, 2), " , "))
 			}
+		}
+	}
+	// the test whether a profile is named may sit one call above the validation: a function that compares the Profile
+	// field and calls a function all of whose successful exits lie behind a passed validation
+	hosts := make([]*ssa.Function, 0)
+	for _, fn := range c.Funcs {
+		if _, direct := c.funcsCalling(c.modPkg("generator/config") + ".Validate")[fn]; direct {
+			continue
+		}
+		callsValidating, testsProfile := false, false
+		for _, ci := range callsIn(fn) {
+			if h := ci.Common().StaticCallee(); h != nil && validating[h] {
+				callsValidating = true
+			}
+		}
+		if !callsValidating {
+			continue
+		}
+		for _, b := range fn.Blocks {
+			iff, ok := lastInstr(b).(*ssa.If)
+			if !ok {
+				continue
+			}
+			cond := iff.Cond
+			if u, isNot := cond.(*ssa.UnOp); isNot && u.Op == token.NOT {
+				cond = u.X
+			}
+			if bin, isBin := cond.(*ssa.BinOp); isBin {
+				for _, side := range []ssa.Value{bin.X, bin.Y} {
+					if of, isLen := lenOperand(side); isLen && profileField(of) || profileField(side) {
+						testsProfile = true
+					}
+				}
+			}
+			if x, _, isTest := emptyTestOf(iff.Cond, true); isTest && profileField(x) {
+				testsProfile = true
+			}
+		}
+		if testsProfile {
+			hosts = append(hosts, fn)
+		}
+	}
+	for _, fn := range hosts {
+		fk := c.FuncKey(fn)
+		k := 0
+		for _, ret := range returnsOf(fn) {
+			res := retResults(ret)
+			if len(res) == 0 || !isErrorType(res[len(res)-1].Type()) {
+				continue
+			}
+			if e, ok := res[len(res)-1].(*ssa.Const); !ok || !e.IsNil() {
+				continue
+			}
+			k++
+			ok := false
+			how := "neither behind a passed validation nor behind a test that no profile is named"
+			for _, g := range guardsOf(ret.Block()) {
+				if x, empty, isTest := emptyTestOf(g.Cond, g.Truth); isTest && profileField(x) && empty {
+					ok, how = true, "behind the test that no profile is named"
+				}
+				if x, isNil, isTest := nilTestOf(g.Cond, g.Truth); isTest && isNil {
+					if ex, isEx := x.(*ssa.Extract); isEx {
+						if call, isCall := ex.Tuple.(*ssa.Call); isCall && call.Call.StaticCallee() != nil && validating[call.Call.StaticCallee()] {
+							ok, how = true, "behind a passed validation (through "+c.FuncKey(call.Call.StaticCallee())+")"
+						}
+					}
+				}
+			}
+			r.Check(ok, sprintf("success-exit|%s#%d", fk, k), c.Pos(ret.Pos()), "a successful exit lies behind a passed validation, or behind a test that the Profile field is empty", how)
 		}
 	}
 	if n == 0 {
@@ -1749,7 +1823,80 @@ func ruleRawTable(c *Ctx, r *Rep) {
 	for i, ret := range returnsOf(fn) {
 		res := retResults(ret)
 		kind := "?"
+		// `return helper(…)`: both results are the helper's; what the helper can answer decides the kind of exit
+		pairOf := func() *ssa.Call {
+			if len(res) != 2 {
+				return nil
+			}
+			e0, ok0 := res[0].(*ssa.Extract)
+			e1, ok1 := res[1].(*ssa.Extract)
+			if !ok0 || !ok1 || e0.Tuple != e1.Tuple {
+				return nil
+			}
+			call, _ := e0.Tuple.(*ssa.Call)
+			return call
+		}
+		var helperKind func(h *ssa.Function, depth int) string
+		helperKind = func(h *ssa.Function, depth int) string {
+			if h == nil || !c.InModule(h) || h.Blocks == nil || hasLoop(h) || depth > 3 {
+				return "?"
+			}
+			out := ""
+			for _, hr := range returnsOf(h) {
+				rr := retResults(hr)
+				k := "?"
+				switch {
+				case len(rr) == 2 && returnsNonNilError(hr) && func() bool { _, isEx := rr[1].(*ssa.Extract); return !isEx }():
+					k = "error"
+				default:
+					switch v := rr[0].(type) {
+					case *ssa.MakeInterface:
+						t := typeShort(c, v.X.Type())
+						switch {
+						case strings.HasSuffix(t, "OverrideNeededBuilder"):
+							k = "override-needed"
+						case strings.HasSuffix(t, "ConstantBuilder"):
+							k = "constant"
+						}
+					case *ssa.Extract:
+						if call, ok := v.Tuple.(*ssa.Call); ok {
+							k = helperKind(call.Call.StaticCallee(), depth+1)
+						}
+					case *ssa.Call:
+						k = helperKind(v.Call.StaticCallee(), depth+1)
+					}
+				}
+				if k == "error" {
+					continue // the helper's own failure exits do not change what its success is
+				}
+				if out == "" {
+					out = k
+				} else if out != k {
+					return "?"
+				}
+			}
+			if out == "" {
+				return "error"
+			}
+			return out
+		}
+		if call := pairOf(); call != nil && call.Call.StaticCallee() != nil && c.InModule(call.Call.StaticCallee()) {
+			kind = helperKind(call.Call.StaticCallee(), 0)
+			if kind == "constant" {
+				o := ""
+				for _, a := range call.Call.Args {
+					o += " " + strings.Join(pv.Origins(a), " ")
+				}
+				switch {
+				case strings.Contains(o, "\"Raw\""):
+					kind = "constant-from-raw"
+				case strings.Contains(o, "\"Content\""):
+					kind = "constant-from-content"
+				}
+			}
+		}
 		switch {
+		case kind != "?":
 		case returnsNonNilError(ret):
 			kind = "error"
 		default:
@@ -1994,6 +2141,7 @@ func ruleTautLen(c *Ctx, r *Rep) {
 		}
 	}
 	_ = n
+	loopGateAtCalls(c, r)
 	// a loop over a list behind a test of that list's length: the test lets exactly the non-empty list through. The
 	// other way round the loop never runs (the elements are dropped from what is encoded); a higher threshold drops short
 	// lists.
@@ -2041,6 +2189,71 @@ func ruleTautLen(c *Ctx, r *Rep) {
 					found = "the loop runs only where the list is known to be empty"
 				}
 				r.Check(isE && !empty, sprintf("loop-gate|%s#%d", c.FuncKey(fn), k), c.Pos(bin.Pos()), "a loop over a list behind a test of its length: the test lets exactly the non-empty list through", found)
+			}
+		}
+	}
+}
+
+// loopGateAtCalls: the same where the loop sits in a helper: a call that hands a list to a module function which
+// ranges over that parameter, behind a test of the list's length at the call.
+func loopGateAtCalls(c *Ctx, r *Rep) {
+	rangesOver := func(h *ssa.Function, prm *ssa.Parameter) bool {
+		for hd := range naturalLoops(h) {
+			iff, ok := lastInstr(hd).(*ssa.If)
+			if !ok {
+				continue
+			}
+			cmp, ok := iff.Cond.(*ssa.BinOp)
+			if !ok || cmp.Op != token.LSS {
+				continue
+			}
+			if list, ok := lenOperand(cmp.Y); ok && list == ssa.Value(prm) {
+				return true
+			}
+		}
+		return false
+	}
+	for _, fn := range c.Funcs {
+		k := 0
+		for _, ci := range callsIn(fn) {
+			h := ci.Common().StaticCallee()
+			if h == nil || h.Blocks == nil || !c.InModule(h) {
+				continue
+			}
+			for i, a := range ci.Common().Args {
+				if _, isSlice := a.Type().Underlying().(*types.Slice); !isSlice || i >= len(h.Params) || !rangesOver(h, h.Params[i]) {
+					continue
+				}
+				for _, g := range guardsOf(ci.Block()) {
+					cond := g.Cond
+					if u, isNot := cond.(*ssa.UnOp); isNot && u.Op == token.NOT {
+						cond = u.X
+					}
+					bin, isBin := cond.(*ssa.BinOp)
+					if !isBin {
+						continue
+					}
+					of, isLen := lenOperand(bin.X)
+					if _, isK := bin.Y.(*ssa.Const); !isLen || !isK {
+						continue
+					}
+					if !(of == a || sameLoad(of, a) || sameFieldLoad(of, a)) {
+						continue
+					}
+					_, empty, isE := emptyTestOf(g.Cond, g.Truth)
+					if !isE && (bin.Op == token.EQL || bin.Op == token.NEQ) {
+						continue
+					}
+					k++
+					found := "the list is known to be non-empty"
+					switch {
+					case !isE:
+						found = "a threshold other than emptiness decides whether the list is gone through"
+					case empty:
+						found = "the helper that goes through the list is called only where the list is known to be empty"
+					}
+					r.Check(isE && !empty, sprintf("loop-gate|%s@call#%d", c.FuncKey(fn), k), c.Pos(bin.Pos()), "a list handed to a helper that goes through it, behind a test of its length: the test lets exactly the non-empty list through", found)
+				}
 			}
 		}
 	}
@@ -2389,8 +2602,8 @@ func lhsBlank(c *Ctx, call *ssa.Call, idx int) bool {
 // ---------------------------------------------------------------------------
 
 func init() {
-	register(&Rule{Name: "LINT-CONSTSLICE", Floor: 0, Run: ruleConstSlice, Fixture: "fixture.sliceBeyondUnknownLength",
-		Doc: "a slice or string of run-time length is cut or indexed at a positive constant only behind a test that establishes that length (a comparison of its len, a prefix test with a constant at least that long, a match of a constant pattern)"})
+	register(&Rule{Name: "LINT-CONSTSLICE", Floor: 0, Run: ruleConstSlice, Fixture: "fixture.sliceBeyondUnknownLength,fixture.listIntoArray",
+		Doc: "a slice or string of run-time length is cut or indexed at a positive constant, or turned into an array, only behind a test that establishes that length (a comparison of its len, a prefix test with a constant at least that long, a match of a constant pattern)"})
 }
 
 // lenLowerBound: the largest n such that the guards on the way to b establish len(s) >= n.
@@ -2494,6 +2707,24 @@ func ruleConstSlice(c *Ctx, r *Rep) {
 		n := 0
 		for _, b := range fn.Blocks {
 			for _, ins := range b.Instrs {
+				if cv, isConv := ins.(*ssa.SliceToArrayPointer); isConv {
+					// a conversion of a slice into an array (or a pointer to one) fails at run time when the slice is shorter
+					pt, _ := cv.Type().Underlying().(*types.Pointer)
+					if pt == nil {
+						continue
+					}
+					arr, _ := pt.Elem().Underlying().(*types.Array)
+					if arr == nil || arr.Len() == 0 {
+						continue
+					}
+					have, known := constLen(cv.X)
+					if !known {
+						have = lenLowerBound(c, cv.X, b)
+					}
+					n++
+					r.Check(have >= arr.Len(), sprintf("to-array|%s#%d", c.FuncKey(fn), n), c.Pos(cv.Pos()), sprintf("a slice turned into an array of %d: a test on the way that establishes a length of at least %d", arr.Len(), arr.Len()), sprintf("established: at least %d", have))
+					continue
+				}
 				sl, ok := ins.(*ssa.Slice)
 				if !ok {
 					continue
